@@ -920,6 +920,11 @@ class IRGenerator:
                     # annotations can be defined directly on fields
                     annotations.update([(field, annotation)
                                         for annotation in field.custom_annotations])
+                # a value of this type can be an instance of any of its
+                # enumerated subtypes
+                if is_struct_type(data_type) and data_type.has_enumerated_subtypes():
+                    for subtype_field in data_type.get_enumerated_subtypes():
+                        annotations.update(recurse(subtype_field.data_type))
             elif is_alias(data_type):
                 annotations.update(recurse(data_type.data_type))
                 # annotations can be defined directly on aliases
